@@ -8,7 +8,7 @@ __all__ = [
 ]
 
 _CompNode: typing.TypeAlias = ListComp | SetComp | DictComp | GeneratorExp
-T = typing.TypeVar("T", expr, NamedExpr, Name, _CompNode)
+T = typing.TypeVar("T", expr, NamedExpr, Name, _CompNode, Lambda)
 
 
 class PendingExprGeneric(typing.Generic[T]):
@@ -124,6 +124,62 @@ class PendingComp(PendingExprGeneric[_CompNode]):
             raise RuntimeError("Unknown comprehension target")
 
 
+class PendingLambda(PendingExprGeneric[Lambda]):
+    """
+    The default values of a lambda run in the outer scope.
+    The parameters of a lambda are names of the lambda's own scope,
+    they are tracked (like the targets of comprehensions)
+    while the body is being converted
+    """
+
+    target_names: set[str]
+    node: Lambda
+
+    def __init__(self, node: Lambda, nsp: Namespace):
+        self.node = node
+        self.nsp = nsp
+        self.target_names = set()
+
+        _args = node.args
+        for _arg in _args.posonlyargs + _args.args + _args.kwonlyargs:
+            self.target_names.add(_arg.arg)
+        if _args.vararg is not None:
+            self.target_names.add(_args.vararg.arg)
+        if _args.kwarg is not None:
+            self.target_names.add(_args.kwarg.arg)
+
+        self.iter_fields = self._iter_fields()
+
+    def _iter_fields(self):
+        _args = self.node.args
+        defaults = []
+        for default in _args.defaults:
+            defaults.append((yield default))
+        kw_defaults = []
+        for kw_default in _args.kw_defaults:
+            if kw_default is None:
+                kw_defaults.append(None)
+            else:
+                kw_defaults.append((yield kw_default))
+        self.converted_args = arguments(
+            posonlyargs=_args.posonlyargs,
+            args=_args.args,
+            vararg=_args.vararg,
+            kwonlyargs=_args.kwonlyargs,
+            kw_defaults=kw_defaults,
+            kwarg=_args.kwarg,
+            defaults=defaults,
+        )
+
+        self.nsp.comp_stack.append(self)
+        self.converted_body = yield self.node.body
+        assert self.nsp.comp_stack[-1] is self
+        self.nsp.comp_stack.pop()
+
+    def get_result(self) -> expr:
+        return Lambda(args=self.converted_args, body=self.converted_body)
+
+
 class ExpressionTransformer:
     def __init__(self, nsp: Namespace):
         self.pending_stack: list[PendingExprGeneric] = []
@@ -136,6 +192,8 @@ class ExpressionTransformer:
             return PendingName(node, self.nsp)
         elif isinstance(node, (ListComp, SetComp, DictComp, GeneratorExp)):
             return PendingComp(node, self.nsp)
+        elif isinstance(node, Lambda):
+            return PendingLambda(node, self.nsp)
         else:
             return PendingExpr(node)
 
